@@ -115,6 +115,9 @@ class SymFactory:
     def __init__(self, ctx):
         self.ctx = ctx
 
+    def __deepcopy__(self, memo):
+        return self      # contract objects that keep a reference to the factory are snapshotted with `old`
+
     def _reg(self, name, t):
         self.ctx.symbols[name] = t
         return t
